@@ -20,7 +20,7 @@ GRAMMAR = re.compile(r"^ClientConnected( ClientRequested( ServerConnecting( Conn
 
 async def population(out, rng, seed, P, oport, closed, uport, n, truth, io_name, hold_evt):
     """runs n mixed connections; fills truth[src_port] = dict(...)"""
-    kinds = ["ok", "ok", "ok", "ok-early", "ok-early", "deny", "refused", "abort-before", "abort-during", "abort-after", "garbage", "tls-fail", "udp", "ok-tls", "ok-socks4", "ok-rev", "ok-upearly", "ok-upearly", "ok-backpressure"]
+    kinds = ["ok", "ok", "ok", "ok-early", "ok-early", "deny", "refused", "abort-before", "abort-during", "abort-after", "garbage", "tls-fail", "udp", "ok-tls", "ok-socks4", "ok-rev", "ok-upearly", "ok-upearly", "ok-backpressure", "ok-lb", "refused-lb"]
 
     async def one(i):
         kind = rng.choice(kinds)
@@ -122,6 +122,32 @@ async def population(out, rng, seed, P, oport, closed, uport, n, truth, io_name,
                     await c.read_all(timeout=5)
                 except Exception:
                     pass
+                c.close()
+            elif kind in ("ok-lb", "refused-lb"):
+                # through a balancer nested in a balancer: the record must name the member that carried (or tried) the connection
+                port = oport if kind == "ok-lb" else closed
+                c = await open_conn("127.0.0.1", P["httplb"])
+                st, _ = await http_connect(c, "127.0.0.1", port)
+                rec.update(listener="httplb", src=c.local[1], target="127.0.0.1:%d" % port, connector="direct")
+                truth[rec["src"]] = rec
+                if kind == "ok-lb":
+                    rec.update(ok=st == 200, outcome="success")
+                    payload = keystream(seed, uid, "c2s", 100)
+                    c.write(payload)
+                    await c.drain()
+                    got = await c.read_exact(100, timeout=15)
+                    rec.update(c2s=100, s2c=len(got))
+                    c.eof()
+                    try:
+                        await c.read_all(timeout=5)
+                    except Exception:
+                        pass
+                else:
+                    rec.update(outcome="error")
+                    try:
+                        await c.read_all(timeout=3)
+                    except Exception:
+                        pass
                 c.close()
             elif kind in ("deny", "refused"):
                 port = 1004 if kind == "deny" else closed
@@ -327,18 +353,21 @@ async def main(args):
     if args.thorough:
         confs += [(1000, "buffered", False), (3, "splice", True)]
     for hist, io_name, splice in confs:
-        P = {k: free_port() for k in ("http", "https", "socks", "rev", "api")}
+        P = {k: free_port() for k in ("http", "https", "socks", "rev", "api", "httplb")}
         listeners = [
             {"name": "http", "bind": "127.0.0.1:%d" % P["http"]},
             {"name": "https", "type": "http", "bind": "127.0.0.1:%d" % P["https"], "tls": tls_server()},
             {"name": "socks", "bind": "127.0.0.1:%d" % P["socks"]},
             {"name": "rev", "type": "reverse", "bind": "127.0.0.1:%d" % P["rev"], "target": "127.0.0.1:%d" % origin.port},
+            {"name": "httplb", "type": "http", "bind": "127.0.0.1:%d" % P["httplb"]},
         ]
-        rules = [{"filter": "request.target.port == 1004", "target": "deny"},
+        rules = [{"filter": "request.listener == \"httplb\"", "target": "lb-outer"}, {"filter": "request.target.port == 1004", "target": "deny"},
                  {"filter": "request.target.port _: [1010, 1012, 1014]", "target": "hup"},
                  {"filter": "request.target.port _: [1011, 1013, 1015]", "target": "sup"}, {"target": "direct"}]
         connectors = [{"name": "direct"}, {"name": "hup", "type": "http", "server": "127.0.0.1", "port": hup.port},
-                      {"name": "sup", "type": "socks", "server": "127.0.0.1", "port": sup.port}]
+                      {"name": "sup", "type": "socks", "server": "127.0.0.1", "port": sup.port},
+                      {"name": "lb-inner", "type": "loadbalance", "connectors": ["direct"], "algo": "rr"},
+                      {"name": "lb-outer", "type": "loadbalance", "connectors": ["lb-inner"], "algo": "rr"}]
         logname = "access-%d-%s.log" % (hist, io_name)
         # a SOCKS UDP association is only retired by its idle timer (the proxy does not watch the control connection):
         # keep that timer short so that such sessions end within the run
